@@ -64,8 +64,11 @@ def m_setup_context(ex, callee, args, ret_ty, frame):
     return VTuple([cel, b])
 
 
-def m_eval_ident(ex, callee, args, ret_ty, frame):
-    return ex.havoc("eval_ident", args, ret_ty, {"code": args[0].root if isinstance(args[0], VRef) else None})
+def m_interp_empty(ex, callee, args, ret_ty, frame):
+    ret = VOpaque("Interpreter", ex.new_vid(), "Interpreter::empty (no context, no bindings)")
+    ex.used["havocked"].add("Interpreter::empty")
+    ex.notes.setdefault("empty_interps", set()).add(ret.vid)
+    return ret
 
 
 def m_is_truthy(ex, callee, args, ret_ty, frame):
@@ -111,7 +114,7 @@ MACRO_CFG = dict(
         (r"^BindContext::bind_param$", m_bind_param),
         (r"^Interpreter::new$", m_interp_new),
         (r"^setup_context$", m_setup_context),
-        (r"^eval_ident$", m_eval_ident),
+        (r"^Interpreter::empty$", m_interp_empty),
         (r"is_truthy$", m_is_truthy),
         (r"^<Vec<CelValue> as Into<CelValue>>::into$", m_vec_into_celvalue),
         (r"^HashMap(::)?(<.*>)?::into_keys$", m_into_keys),
@@ -119,6 +122,8 @@ MACRO_CFG = dict(
     ],
     seq_bound=LIST_BOUND,
     loop_bound=LIST_BOUND + 3,
+    inline_default=True,
+    keep_uninterpreted=[r"^<CelValue as (PartialEq|Debug|Display)", r"^CelValue::(as_type|or|and|lt|le|gt|ge|neq|in_|index|ord)$", r"^<CelValue as (Add|Sub|Mul|Div|Rem|Not|Neg|CelValueDyn)>"],
 )
 
 
@@ -142,7 +147,8 @@ class Facts:
         self.nargs = ex.notes["nargs"]
         self.codes = ex.notes["codes"]
         self.ctx_vid = vid_of(ex, ex.notes["ctx"])
-        self.idents = [e for e in ex.trace if e.name == "eval_ident"]
+        self.idents = [e for e in ex.trace if e.name == "run_raw" and e.extra["resolve"] is False]
+        self.empty_interps = ex.notes.get("empty_interps", set())
         self.setup = [e for e in ex.trace if e.name == "setup_context"]
         binds, interps = {}, {}
         self.evals = []
@@ -152,7 +158,7 @@ class Facts:
                 binds.setdefault(b, {})[n] = v
             elif e.name == "Interpreter::new":
                 interps[e.extra["ret"]] = (e.extra["cel"], e.extra["bindings"], dict(binds.get(e.extra["bindings"], {})))
-            elif e.name == "run_raw":
+            elif e.name == "run_raw" and e.extra["resolve"] is not False:
                 self.evals.append(dict(interp=e.extra["interp"], code=e.extra["code"], resolve=e.extra["resolve"], ret=e.ret, env=interps.get(e.extra["interp"])))
 
     def code(self, k):
@@ -272,9 +278,14 @@ def preconditions(A, F, arities, need_idents, containers=("List",)):
         ev = F.ident(k)
         if ev is None:
             raise SpecMismatch(f"argument {k} was never evaluated as an identifier")
+        if ev.extra["interp"] not in F.empty_interps:
+            raise SpecMismatch(f"the name of the loop variable (argument {k}) was evaluated with bindings in scope, so an outer binding of that name would replace it")
         if A.ask(is_variant(ex, ev.ret, "Err")):
             return Exp(("anyerr",), [], "identifier argument fails")
-        names.append(vid_of(ex, ok_payload(ex, ev.ret)))
+        v = ok_payload(ex, ev.ret)
+        if not A.ask(is_variant(ex, v, "Ident")):
+            return Exp(("anyerr",), [], "identifier argument is not an identifier")
+        names.append(vid_of(ex, ex.adt_fields(v, ex.variant_index(v, "Ident"))[0]))
     for c in containers:
         if A.ask(is_variant(ex, F.this, c)):
             return names, c
@@ -524,7 +535,7 @@ def outcome_of(ex, model, r, style):
         return "null" if variant_name(ex, model, v) == "Null" else "value"
     if style == "value":
         return "value"
-    return "truthy" if z3.is_true(mval(model, truthy_of(ex, v.vid))) else "falsy"
+    return ("truthy:" if z3.is_true(mval(model, truthy_of(ex, v.vid))) else "falsy:") + variant_name(ex, model, v)
 
 
 def make_scenario(macro, F, style_of_code):
@@ -536,7 +547,7 @@ def make_scenario(macro, F, style_of_code):
         for k in range(2):
             ev = F.ident(k) if len(F.idents) > 0 else None
             if ev is not None:
-                idents[k] = variant_name(ex, model, ev.ret) == "Ok"
+                idents[k] = variant_name(ex, model, ev.ret) == "Ok" and variant_name(ex, model, ok_payload(ex, ev.ret)) == "Ident"
         sc["idents_ok"] = idents
         seq = None
         if sc["receiver"] == "List":
